@@ -43,6 +43,10 @@ func (e ErrBadUnlock) Error() string {
 
 type abortSentinel struct{}
 
+// IsAbort tells whether a recovered panic value is the scheduler unwinding a
+// task (deadlock or overrun): harness code that recovers panics must re-panic it.
+func IsAbort(r any) bool { _, ok := r.(abortSentinel); return ok }
+
 // ---------------------------------------------------------------------------
 // run state (one simulation per process at a time)
 
